@@ -446,6 +446,20 @@ ROUND13 = {
 for _k, _v in ROUND13.items():
     CLAIMED[_k]["text"] = CLAIMED[_k]["text"] + " " + _v
 
+# sentences added in the fourteenth round of seeding (ten properties)
+ROUND14 = {
+    "C03": "An in-place rewrite of a copy works on a deep copy of the component.",
+    "C04": "The user's variable files are layered with the deep merge (override_object), never section by section.",
+    "C05": "A local memo of the unrolling functions is keyed by everything its value depends on (the helper's own parameters included).",
+    "C06": "No function of the load path stores into a module-level or class-level mutable object (nothing is remembered between scopes or compilations).",
+    "C09": "A value a Manifest derives from its mapping and remembers is reset by every method that changes the mapping.",
+    "C11": "What validate_component reports reaches the returned list on every path of the iteration.",
+    "C15": "list.extend(<unordered>) is an order sink; class-level mutable objects count as process-wide state.",
+    "C19": "A list value is joined in the order and multiplicity it was given.",
+}
+for _k, _v in ROUND14.items():
+    CLAIMED[_k]["text"] = CLAIMED[_k]["text"] + " " + _v
+
 
 def main():
     checks = []
